@@ -59,6 +59,9 @@ from specs import bipart as BP
 from bounded.C08 import make_ns, _tup, shape_str, random_shape  # construction helpers only (no oracle code)
 
 TOL = 1e-9
+HANG_SECONDS = 3
+HANG_LIMIT = 3      # per worker process and operation: afterwards the operation is reported without being run
+_HANGS = {}
 MAX_REPORT_PER_MONITOR = 12
 
 PATS = length_patterns()
@@ -205,8 +208,10 @@ def eval_op(spec, o, before=None):
     exp_total = before["total"]
     exp_paths = before["paths"]
     edge_info = None
+    if _HANGS.get(op, 0) >= HANG_LIMIT:
+        return [(prefix + ".terminates", "not run: this operation already hung %d times in this worker" % HANG_LIMIT)]
     try:
-        with time_limit(20):
+        with time_limit(HANG_SECONDS):
             if op == "reseed_at":
                 t.reseed_at(target, update_bipartitions=o["upd"], suppress_unifurcations=o["sup"], collapse_unrooted_basal_bifurcation=o["col"])
             elif op == "reroot_at_node":
@@ -238,7 +243,8 @@ def eval_op(spec, o, before=None):
             else:
                 raise ValueError(op)
     except Timeout:
-        return [(prefix + ".terminates", "no result after 20 s")]
+        _HANGS[op] = _HANGS.get(op, 0) + 1
+        return [(prefix + ".terminates", "no result after %s s" % HANG_SECONDS)]
     except Exception as ex:
         return [(raises_prefix + ".raises", "%s: %s" % (type(ex).__name__, ex))]
 
